@@ -156,6 +156,25 @@ def file_level(chk):
             warnings.simplefilter('ignore')
             fa1, fa2 = FlowCal.io.FCSFile(a), FlowCal.io.FCSFile(a)
             da1, da2 = FlowCal.io.FCSData(a), FlowCal.io.FCSData(a)
+            # the documented file-like form: two loads through ONE open handle (the first leaves it at the end of the
+            # file), and a load through a handle the caller has already read from
+            same_handle = 'ok'
+            try:
+                with open(a, 'rb') as h:
+                    h1, h2 = FlowCal.io.FCSData(h), FlowCal.io.FCSData(h)
+                    g1, g2 = FlowCal.io.FCSFile(h), FlowCal.io.FCSFile(h)
+                    h.seek(0)
+                    h.read(6)
+                    h3 = FlowCal.io.FCSData(h)
+                fps = [hr.fingerprint(x) for x in (h1, h2, h3)]
+                for fp_ in fps:
+                    fp_.pop('infile', None)
+                ref = hr.fingerprint(da1)
+                ref.pop('infile', None)
+                if not (fps[0] == fps[1] == fps[2] == ref and bool(g1 == g2)):
+                    same_handle = 'loads through one handle differ'
+            except Exception as e:  # noqa
+                same_handle = 'raised %s: %s' % (type(e).__name__, str(e)[:80])
         # b, bm and c live at other paths; compare through a copy at the same path to isolate content
         import shutil
         same_path = os.path.join(d, 'x_%s.fcs' % tag)
@@ -174,13 +193,16 @@ def file_level(chk):
                'event_differs_unequal': bool(f_same1 != f_event) and not bool(f_same1 == f_event),
                'smallest_event_difference_unequal': (not differs) or (bool(f_same1 != f_min) and not bool(f_same1 == f_min)),
                'keyword_differs_unequal': bool(f_same1 != f_kw) and not bool(f_same1 == f_kw),
-               'fcsdata_loads_equal': hr.fingerprint(da1) == hr.fingerprint(da2)}
+               'fcsdata_loads_equal': hr.fingerprint(da1) == hr.fingerprint(da2),
+               'loads_through_one_open_handle_equal': same_handle == 'ok'}
         if not differs:
             raise tlc.MachineryError('C20 file level: the minimally changed file %s reads back the same events' % tag)
+        if same_handle != 'ok':
+            obs['one_handle_detail'] = same_handle
         chk.case(('file', tag), nontrivial=True, sample={'file_level': tag, 'observed': obs})
         chk.traces += 1
         for k, v in obs.items():
-            if not v:
+            if v is False:
                 chk.violation('C20/file/%s/%s' % (tag, k), {'datatype': dt, 'bits': bits, 'events': repr(ev), 'changed': repr(ev_min)},
                               {k: True}, obs)
 
